@@ -139,6 +139,44 @@ impl SExp {
         }
     }
 
+    /// Exact value at a rational point.
+    pub fn eval_q(&self, x: &[Q]) -> Q {
+        let truthy = |q: Q| !q.is_zero();
+        match self {
+            SExp::Num(d) => d.q(),
+            SExp::Var(i) => x[*i],
+            SExp::Add(l, r) => l.eval_q(x).add(r.eval_q(x)),
+            SExp::Sub(l, r) => l.eval_q(x).sub(r.eval_q(x)),
+            SExp::MulL(c, e) | SExp::MulR(e, c) => c.q().mul(e.eval_q(x)),
+            SExp::Div(e, c) => e.eval_q(x).div(c.q()),
+            SExp::Neg(e) => e.eval_q(x).neg(),
+            SExp::Abs(e) => e.eval_q(x).abs(),
+            SExp::Min(es) => es.iter().map(|e| e.eval_q(x)).min().unwrap(),
+            SExp::Max(es) => es.iter().map(|e| e.eval_q(x)).max().unwrap(),
+            SExp::And(es) => {
+                if es.iter().all(|e| truthy(e.eval_q(x))) {
+                    Q::ONE
+                } else {
+                    Q::ZERO
+                }
+            }
+            SExp::Or(es) => {
+                if es.iter().any(|e| truthy(e.eval_q(x))) {
+                    Q::ONE
+                } else {
+                    Q::ZERO
+                }
+            }
+            SExp::Not(e) => {
+                if truthy(e.eval_q(x)) {
+                    Q::ZERO
+                } else {
+                    Q::ONE
+                }
+            }
+        }
+    }
+
     pub fn subexpressions<'a>(&'a self, out: &mut Vec<&'a SExp>) {
         out.push(self);
         match self {
@@ -1278,9 +1316,60 @@ fn cmp3(rng: &mut Rng) -> Cmp {
     }
 }
 
+/// Makes the constraints hold at a seeded point of the declared domains by shifting each
+/// right-hand side by an exact constant (keeps the shape, makes feasible sources common).
+fn plant_feasible(rng: &mut Rng, m: &mut SrcModel) {
+    let star: Vec<Q> = m
+        .vars
+        .iter()
+        .map(|v| match &v.dom {
+            Dom::Bool => Q::int(rng.range(0, 1)),
+            Dom::Int { lo, hi } => Q::int(rng.range(*lo as i64, *hi as i64)),
+            d => {
+                let (lo, hi) = d.bounds_f64();
+                let (lo_i, hi_i) = match (lo.is_finite(), hi.is_finite()) {
+                    (true, true) => (lo.ceil() as i64, hi.floor() as i64),
+                    (true, false) => (lo.ceil() as i64, lo.ceil() as i64 + 6),
+                    (false, true) => (hi.floor() as i64 - 6, hi.floor() as i64),
+                    (false, false) => (-4, 4),
+                };
+                if lo_i > hi_i {
+                    Q::from_f64(lo) // a narrow finite interval without an integer inside
+                } else {
+                    Q::new(rng.range(lo_i * 2, hi_i * 2) as i128, 2)
+                }
+            }
+        })
+        .collect();
+    for c in &mut m.cons {
+        let diff = c.lhs.eval_q(&star).sub(c.rhs.eval_q(&star)); // lhs - rhs at the point
+        if diff.denom() > 1000 || diff.numer().abs() > 1_000_000 {
+            continue;
+        }
+        let slack = Q::new(rng.range(0, 4) as i128, 2);
+        // new rhs = rhs + shift, so that lhs - rhs - shift has the right sign
+        let shift = match c.cmp {
+            Cmp::Eq => diff,
+            Cmp::Le => diff.add(slack),
+            Cmp::Ge => diff.sub(slack),
+        };
+        if shift.is_zero() {
+            continue;
+        }
+        let d = Dec {
+            n: shift.numer() as i64,
+            d: shift.denom() as i64,
+        };
+        c.rhs = SExp::Add(Box::new(c.rhs.clone()), Box::new(SExp::Num(d)));
+    }
+}
+
 pub fn gen_src_model(rng: &mut Rng) -> (String, SrcModel) {
     for _ in 0..200 {
-        let (label, m) = gen_src_model_once(rng);
+        let (label, mut m) = gen_src_model_once(rng);
+        if label != "contradictory" && label != "extreme-coefficient" && rng.chance(3, 5) {
+            plant_feasible(rng, &mut m);
+        }
         if m.well_formed() && m.int_points() <= MAX_INT_POINTS && m.vars.iter().filter(|v| !v.dom.is_integer()).count() <= 3 {
             return (label, m);
         }
